@@ -1,4 +1,8 @@
+import FrappyModel.Generated.C10
 import FrappyModel.Generated.C20
+import FrappyModel.Klass.Config
+import FrappyModel.Klass.ConfigDT
 import FrappyModel.Node.Logging
 import FrappyModel.Small.Rotate
+import FrappyModel.Spec.C10
 import FrappyModel.Spec.C20
